@@ -409,6 +409,32 @@ def rule_not_carried(ctx):
             ctx.holds('R4', q.replace('dimarray.', '') + ': %d constructor site(s) without metadata' % n)
         else:
             ctx.undecide('R4', '%s: no constructor site found' % q)
+    # unary operators: every one is the metadata-free _unary_op over the NumPy function of the same name
+    import ast
+    om = ctx.P.cls('dimarray.core.bases.OpMixin')
+    UNARY = {'__neg__': {'np.ndarray.__neg__', 'np.negative'}, '__pos__': {'np.ndarray.__pos__', 'np.positive'}, '__invert__': {'np.invert', 'np.ndarray.__invert__', 'np.bitwise_not'},
+             '__abs__': {'np.abs', 'np.absolute', 'np.ndarray.__abs__'}}
+    nun = 0
+    for name, funcs in sorted(UNARY.items()):
+        m = om.members.get(name)
+        if m is None or m.kind != 'func':
+            continue
+        f = m.value
+        ev = run(ctx, f)
+        want = [('call', ('attr', P_('self'), '_unary_op'), (x,), ()) for x in ()]
+        okv = True
+        for p in ret_paths(ev):
+            v = p.value
+            good = v[0] == 'call' and T.call_name(v) == '_unary_op' and T.call_receiver(v) == P_('self') and len(v[2]) == 1 and (T.dotted(v[2][0]) or '') in funcs
+            if not good:
+                okv = False
+                ctx.violated('R4', f, 'OpMixin.%s' % name, 'unary %s must be self._unary_op(<NumPy %s>): any other route (copy(), _constructor(..., **attrs)) hands back the '
+                             'operand\'s metadata or another function\'s values; got %s' % (name, name.strip('_'), T.show(v)[:80]), node=f.node)
+        if okv:
+            nun += 1
+            ctx.holds('R4', 'OpMixin.%s -> _unary_op(%s)' % (name, '|'.join(sorted(funcs))[:40]))
+    if nun < 3:
+        ctx.undecide('R4', 'expected the unary operators __neg__, __pos__, __invert__ on OpMixin, recognised %d' % nun)
 
 
 def rule_axis_metadata(ctx):
